@@ -176,6 +176,8 @@ def compare_status(
     """
     if cache_odb is None:
         cache_odb = src
+    # NOTE: obj_ids is walked twice below, and it may be a one-shot iterable
+    obj_ids = list(obj_ids)
     dest_exists, dest_missing = status(
         dest,
         obj_ids,
